@@ -1,0 +1,56 @@
+//go:build verif
+
+package types
+
+// Lemma functions for the /verif VC generator (govc): client code verified against the
+// contracts of the functions it calls (never their bodies). Compiled only with -tags verif.
+
+func lemmaDateTrichotomy(a, b Date) int {
+	n := 0
+	if a.Before(b) {
+		n++
+	}
+	if a.Equals(b) {
+		n++
+	}
+	if a.After(b) {
+		n++
+	}
+	return n
+}
+
+func lemmaDateTransitive(a, b, c Date) bool {
+	if a.Before(b) && b.Before(c) {
+		return a.Before(c)
+	}
+	return true
+}
+
+func lemmaDateMirror(a, b Date) bool {
+	return a.Before(b) == b.After(a)
+}
+
+func lemmaHHmmTrichotomy(a, b HHmm) int {
+	n := 0
+	if a.Before(b) {
+		n++
+	}
+	if a.Equals(b) {
+		n++
+	}
+	if a.After(b) {
+		n++
+	}
+	return n
+}
+
+func lemmaHHmmTransitive(a, b, c HHmm) bool {
+	if a.Before(b) && b.Before(c) {
+		return a.Before(c)
+	}
+	return true
+}
+
+func lemmaHHmmMirror(a, b HHmm) bool {
+	return a.Before(b) == b.After(a)
+}
